@@ -70,7 +70,7 @@ theorem sinv_rpcStartTask (sp : Spec) (orc : String → Bool) (rk : String → N
           else checkAffected sp w t
         else
           if r.state == .SUCCESS then w
-          else if isCompleted r.state then w
+          else if isCompleted r.state then checkAffected sp w t
           else if r.state == .RUNNING && hasLiveAction w t then w
           else { w with tasks := setTask w.tasks { r with state := .RUNNING, processed := false },
                         pending := w.pending ++ [.postRunAction t] }) := by
@@ -115,7 +115,7 @@ theorem sinv_rpcStartTask (sp : Spec) (orc : String → Bool) (rk : String → N
       split
       · exact h
       · split
-        · exact h
+        · exact sinv_checkAffected sp orc w t h
         · rename_i hnc
           split
           · exact h
